@@ -505,7 +505,7 @@ def _apply_operation(
 
     if cov_pix.size == 0:
         # No coverage ... the result is an empty map
-        return HealSparseMap.make_empty_like(map_list[0])
+        return HealSparseMap.make_empty_like(map_list[0], dtype=dtype, sentinel=sentinel)
 
     # Initialize the combined map, we know the size
     cov_map = HealSparseCoverage.make_from_pixels(nside_coverage,
